@@ -15,9 +15,7 @@
 package gitindex
 
 import (
-	"errors"
 	"fmt"
-	"io"
 	"log"
 	"net/url"
 	"path"
@@ -109,25 +107,52 @@ func (rw *RepoWalker) CollectFiles(t *object.Tree, branch string, ig *ignore.Mat
 		return nil, fmt.Errorf("newIgnoreMatcher: %w", err)
 	}
 
-	tw := object.NewTreeWalker(t, true, make(map[plumbing.Hash]bool))
-	defer tw.Close()
-
 	// Path => commit SHA1
 	subRepoVersions := make(map[string]plumbing.Hash)
-	for {
-		name, entry, err := tw.Next()
-		if err == io.EOF {
-			break
+	err = rw.walkTree(t, "", 0, func(name string, entry *object.TreeEntry) error {
+		if err := rw.handleEntry(name, entry, branch, subRepoVersions, ig); err != nil {
+			return fmt.Errorf("handleEntry: %w", err)
 		}
-		if errors.Is(err, object.ErrMaxTreeDepth) {
-			// The walker makes no progress after this error: it would be returned forever.
-			return nil, fmt.Errorf("tree walk: %w", err)
-		}
-		if err := rw.handleEntry(name, &entry, branch, subRepoVersions, ig); err != nil {
-			return nil, fmt.Errorf("handleEntry: %w", err)
-		}
+		return nil
+	})
+	if err != nil {
+		return nil, err
 	}
 	return subRepoVersions, nil
+}
+
+// maxTreeDepth bounds the directory nesting walkTree follows.
+const maxTreeDepth = 1024
+
+// walkTree calls fn with the full path of every entry below t, a directory
+// before its content, in tree order. Unlike go-git's TreeWalker it does not
+// judge entry names: names that are fine for git but not for a checkout
+// (control characters, backslashes) must still be indexed under their path.
+func (rw *RepoWalker) walkTree(t *object.Tree, base string, depth int, fn func(name string, entry *object.TreeEntry) error) error {
+	if depth > maxTreeDepth {
+		return fmt.Errorf("tree walk: %q: more than %d nested directories", base, maxTreeDepth)
+	}
+	for i := range t.Entries {
+		entry := &t.Entries[i]
+		name := entry.Name
+		if base != "" {
+			name = base + "/" + entry.Name
+		}
+		if err := fn(name, entry); err != nil {
+			return err
+		}
+		if entry.Mode != filemode.Dir {
+			continue
+		}
+		sub, err := object.GetTree(rw.repo.Storer, entry.Hash)
+		if err != nil {
+			return fmt.Errorf("tree walk: %q: %w", name, err)
+		}
+		if err := rw.walkTree(sub, name, depth+1, fn); err != nil {
+			return err
+		}
+	}
+	return nil
 }
 
 func (rw *RepoWalker) tryHandleSubmodule(p string, id *plumbing.Hash, branch string, subRepoVersions map[string]plumbing.Hash, ig *ignore.Matcher) error {
